@@ -178,6 +178,8 @@ def freq_to_voicing(frequencies, voicing=None):
 
     """
     if voicing is not None:
+        # Work on a copy so that the caller's array is left untouched
+        voicing = np.array(voicing)
         voicing[frequencies == 0] = 0
     else:
         voicing = (frequencies > 0).astype(float)
